@@ -150,7 +150,8 @@ func (r Ring) MulCoeffsMontgomeryLazyThenSubLazy(p1, p2, p3 Poly) {
 // AddScalar evaluates p2 = p1 + scalar coefficient-wise in the ring.
 func (r Ring) AddScalar(p1 Poly, scalar uint64, p2 Poly) {
 	for i, s := range r.SubRings[:r.level+1] {
-		s.AddScalar(p1.Coeffs[i], scalar, p2.Coeffs[i])
+		// The scalar can exceed a modulus of the chain: it acts through its residue.
+		s.AddScalar(p1.Coeffs[i], BRedAdd(scalar, s.Modulus, s.BRedConstant), p2.Coeffs[i])
 	}
 }
 
@@ -185,7 +186,8 @@ func (r Ring) SubDoubleRNSScalar(p1 Poly, scalar0, scalar1 RNSScalar, p2 Poly) {
 // SubScalar evaluates p2 = p1 - scalar coefficient-wise in the ring.
 func (r Ring) SubScalar(p1 Poly, scalar uint64, p2 Poly) {
 	for i, s := range r.SubRings[:r.level+1] {
-		s.SubScalar(p1.Coeffs[i], scalar, p2.Coeffs[i])
+		// The scalar can exceed a modulus of the chain: it acts through its residue.
+		s.SubScalar(p1.Coeffs[i], BRedAdd(scalar, s.Modulus, s.BRedConstant), p2.Coeffs[i])
 	}
 }
 
